@@ -37,7 +37,7 @@ KINDS = ["pair", "pair", "pair-onekind", "square", "chain3", "evidence", "unalig
 
 
 def plan(tier, seed):
-    n = 11 if tier == "quick" else 1440
+    n = 22 if tier == "quick" else 1440
     return [{"kind": k, "k": i, "seed": seed} for i in range(n) for k in KINDS]
 
 
